@@ -137,7 +137,11 @@ func (a Tuple) M__iadd__(other Object) (Object, error) {
 }
 
 func (l Tuple) M__mul__(other Object) (Object, error) {
-	if b, ok := convertToInt(other); ok {
+	b, ok, err := repeatCount(other)
+	if err != nil {
+		return nil, err
+	}
+	if ok {
 		m := len(l)
 		n, err := repeatLength(m, b)
 		if err != nil {
